@@ -23,6 +23,15 @@ type E struct {
 func Leaf(op string) *E                  { return &E{Op: op} }
 func Key(k string) *E                    { return &E{Op: "key", S: k} }
 func Idx(i int) *E                       { return &E{Op: "idx", N: i} }
+
+// Idxs is one bracket holding several indices: .[i, j, ...]
+func Idxs(is ...int) *E {
+	var parts []string
+	for _, i := range is {
+		parts = append(parts, strconv.Itoa(i))
+	}
+	return &E{Op: "idxs", S: strings.Join(parts, ", ")}
+}
 func Lit(v *val.V) *E                    { return &E{Op: "lit", V: v} }
 func Var(n string) *E                    { return &E{Op: "var", S: n} }
 func Un(op string, a *E) *E              { return &E{Op: op, A: []*E{a}} }
@@ -73,6 +82,8 @@ func (e *E) String() string {
 		return ".[" + strconv.Quote(e.S) + "]"
 	case "idx":
 		return ".[" + strconv.Itoa(e.N) + "]"
+	case "idxs":
+		return ".[" + e.S + "]"
 	case "splat":
 		return ".[]"
 	case "rdesc":
